@@ -243,6 +243,10 @@ impl Node {
                 cls.to_string()
             };
 
+            // Class names which are produced by resolving references may be relative. Make the
+            // name absolute before checking whether we've seen the class already.
+            let cls = self.abs_class_name(&cls)?;
+
             // Check if we've seen the class already after resolving any references in the class
             // name.
             if seen.contains(&cls) {
